@@ -24,10 +24,11 @@ demonstration.  Every change kept here was confirmed independently (`tools/verif
 without the change, suite passes with it, demonstration fails with it) against the repaired tree; changes from the
 first round that collided with a later repair were ported to the repaired code and confirmed again (C06-A could not
 be ported: the code it modifies was replaced; C07-B and C12-A no longer break their property after the repairs of D2
-and D10).  There were three rounds: two changes per property (`-A`, `-B`), a second pair (`-C`, `-D`) for the
+and D10).  There were four rounds: two changes per property (`-A`, `-B`), a second pair (`-C`, `-D`) for the
 properties whose checks had caught the first pair most easily, and a pair (`-C`, `-D`) for the remaining twelve.  The
 third round was used to widen the specifications (§10.5): before that, 11 of its 24 changes were missed by the check
-of their own property; the table shows the state afterwards.  The `Dxx-revert` entries are the reverse patches of this project's own `fix:` commits.  `seeded/<id>/`
+of their own property; the table shows the state afterwards.  A fourth round (`-E`, one further change per property
+from a new set of sub-agents, after the specifications had been widened) was run against the final checks.  The `Dxx-revert` entries are the reverse patches of this project's own `fix:` commits.  `seeded/<id>/`
 holds `patch.diff`, the demonstration, `notes.md` and `meta.json`; `tools/matrix.sh` produced the table
 (`seeded/MATRIX.*.tsv`; each run applies the change to an isolated copy of the repository and runs the check of the
 property it breaks, plus related checks).  {caught} of {len(rows)} entries are caught by at least one registered check.
